@@ -30,9 +30,18 @@ type DeadCase struct {
 	K     kernel.Params `json:"kernel"`
 	Eng   EngCfg        `json:"eng"`
 	Ops   []DOp         `json:"ops"`
+	DialTimeoutMs int   `json:"dial_timeout_ms,omitempty"` // > 0: the connection is made with DialAsyncTimeout instead of being accepted
 }
 
 func genDeadCase(r *simrt.Rand, tier string) *DeadCase {
+	c := genDeadCase0(r, tier)
+	if r.Bool(0.15) {
+		c.DialTimeoutMs = r.Pick(1, 50, 1000)
+	}
+	return c
+}
+
+func genDeadCase0(r *simrt.Rand, tier string) *DeadCase {
 	c := &DeadCase{Sched: common.GenSched(r, 80000)}
 	c.Sched.TimeJump = r.PickF(0, 0.005, 0.02, 0.05)
 	c.Eng = genEng(r)
@@ -106,15 +115,54 @@ func runDead(t *testing.T, ci interface{}, trace bool) *common.Outcome {
 			return
 		}
 		defer w.StopAll()
-		cs, err := w.ConnectPeer()
-		if err != nil {
-			o.Infra = err.Error()
-			return
-		}
-		simrt.WaitStuck("open", time.Second, func() bool { return cs.OpenDone })
-		if cs.C == nil {
-			o.Infra = "connection never opened"
-			return
+		var cs *ConnState
+		if c.DialTimeoutMs > 0 {
+			// a connection made by an asynchronous dial with a timeout: the dial timer must be
+			// gone once the connection is established, or it shadows the deadlines set later
+			addr := "127.0.0.1:7600"
+			ln, err := w.K.Listen(&kernel.Addr{Net: "tcp", IP: [4]byte{127, 0, 0, 1}, Port: 7600})
+			if err != nil {
+				o.Infra = "peer listen: " + err.Error()
+				return
+			}
+			cs = w.Expect(addr, nil)
+			cs.Dialed = true
+			dialed := false
+			err = w.G.DialAsyncTimeout("tcp", addr, time.Duration(c.DialTimeoutMs)*time.Millisecond, func(nc *nbio.Conn, err error) {
+				cs.DialCB++
+				cs.DialErr = err
+				if err == nil && nc != nil {
+					cs.C = nc
+					w.byC[nc] = cs
+					if ks := w.K.SockOf(ProbeFD(nc)); ks != nil && ks.Peer() != nil {
+						cs.Peer, cs.Local = ks.Peer(), ks
+					}
+				}
+				dialed = true
+			})
+			if err != nil {
+				o.Infra = "dial: " + err.Error()
+				return
+			}
+			simrt.WaitStuck("peer-accept", time.Second, func() bool { return ln.AcceptReady() })
+			ln.Accept()
+			simrt.WaitStuck("dialed", time.Second, func() bool { return dialed })
+			if cs.C == nil || cs.Peer == nil {
+				o.Probe("dial_did_not_succeed")
+				return
+			}
+		} else {
+			var err error
+			cs, err = w.ConnectPeer()
+			if err != nil {
+				o.Infra = err.Error()
+				return
+			}
+			simrt.WaitStuck("open", time.Second, func() bool { return cs.OpenDone })
+			if cs.C == nil {
+				o.Infra = "connection never opened"
+				return
+			}
 		}
 		nc := cs.C
 		var hist []*dlEntry
